@@ -92,6 +92,70 @@ prop('C08', 'Every compilable module is minified without error into a compilable
                  'covered by the other groups; whole-package termination/memory are not decided.')
 
 
+def generic_standin(name, script, args, bound):
+    return Task('standin.' + name.replace(' ', '_'), 'contracts.printer:task_standin', standin=name, script=script, args=args, bound=bound)
+
+
+def folding_tasks(tier):
+    ts = [Task('folding.visit_BinOp', 'contracts.folding:task_visit_binop'), Task('folding.evt', 'contracts.folding:task_equal_value_and_type'),
+          Task('folding.literal_tokens', 'contracts.folding:task_literal_tokens')]
+    from contracts import tokens
+    for m in ('integer', 'floatnumber', 'imagnumber', 'keyword', 'operator', 'delimiter'):
+        ts.append(Task('tokens.%s' % m, 'contracts.tokens:task_method', method=m))
+    for rec, tag, meth in (('ModulePrinter', 'Constant', 'visit_Constant'), ('ModulePrinter', 'BinOp', 'visit_BinOp'),
+                           ('ModulePrinter', 'UnaryOp', 'visit_UnaryOp')):
+        ts.append(Task('printer.%s.%s[%s]' % (rec, meth, tag), 'contracts.printer:task_visit', receiver=rec, tag=tag, method=meth))
+    ts.append(generic_standin('fold sweep depth 2', 'fold_sweep.py', ['--depth', '2', '--samples', '1000'],
+                              '34 operands x 13 operators x 34 operands; systematic second level over 6 operands x 6 operators (both nestings); 2000 seeded '
+                              'nested samples; 150 modules of 40 assignments in seeded order; value/type/sign/exception and length compared'))
+    if tier == 'thorough':
+        ts.append(generic_standin('fold sweep depth 3', 'fold_sweep.py', ['--depth', '3', '--samples', '20000'],
+                                  'second level over 12 operands x 11 operators, 40000 seeded nested samples, all depth-1 expressions in batches of 40'))
+        ts.append(generic_standin('float sweep', 'literal_pool.py', ['--sweep', '6'], 'every binary exponent x 10 mantissas, 4 contexts'))
+    return ts
+
+
+FOLD_TRUST = ['safe_eval / ast.parse / compare_ast by contract (external or verified elsewhere); CPython arithmetic itself is evaluated by the code, '
+              'not predicted', 'literal printing relies on the C02 L3 contracts; float text value preservation is bounded-only']
+
+prop('C07', 'Constant folding never changes a value, its type, or an error', 'proof', folding_tasks,
+     ['C07/', 'C17/FoldConstants', 'C02/L3/', 'C02/L2/ModulePrinter.visit_BinOp', 'C02/L2/ModulePrinter.visit_UnaryOp', 'C08/noraise/FoldConstants',
+      'C08/noraise/TokenPrinter'],
+     replay='props.replay_printer:replay_fold', trusted=FOLD_TRUST,
+     explanation='Guard argument on the real visit_BinOp: a replacement node is returned only on paths whose event log and path condition contain '
+                 'the full guard (operands are number/True/False/None constants, not Div/Pow, original evaluates without error to v, v not NaN, '
+                 'replacement built from v itself, its text evaluates, is strictly shorter, re-parses to itself, equal_value_and_type holds); '
+                 'every other path returns the original node. equal_value_and_type proved to imply identical type and ==. Literal printing '
+                 'by the L3 contracts of C02.')
+
+
+def sink_tasks(tier):
+    ts = [Task('sinks.inventory', 'contracts.sinks:task_inventory'), Task('sinks.MiniString.__str__', 'contracts.sinks:task_ministring_str')]
+    for m, q in (('to_short', "'"), ('to_short', '"'), ('to_long', "'''"), ('to_long', '"""')):
+        for sm in (False, True):
+            ts.append(Task('sinks.MiniString.%s[%s,%s]' % (m, q, sm), 'contracts.sinks:task_ministring', method=m, quote=q, safe_mode=sm))
+    for c in ('Str', 'Bytes'):
+        ts.append(Task('sinks.%s._literals' % c, 'contracts.sinks:task_fstr_literals', cls=c))
+        ts.append(Task('sinks.%s.__str__' % c, 'contracts.sinks:task_fstr_str', cls=c))
+    ts.append(Task('folding.visit_BinOp', 'contracts.folding:task_visit_binop'))
+    ts.append(Task('folding.literal_tokens', 'contracts.folding:task_literal_tokens'))
+    ts.append(generic_standin('sink canary len 2', 'sink_canary.py', ['--len', '2'],
+                              'all sequences of up to 2 of 32 adversarial pieces through MiniString, f_string.Str/Bytes, minify and unparse with eval wrapped'))
+    if tier == 'thorough':
+        ts.append(generic_standin('sink canary len 3', 'sink_canary.py', ['--len', '3'], 'all sequences of up to 3 of 32 adversarial pieces'))
+    return ts
+
+
+prop('C12', 'Minifying never runs code taken from the input', 'proof', sink_tasks, ['C12/'], replay='props.replay_printer:replay_sinks',
+     trusted=['string-literal lexer DFA (language reference 2.4.1), hand-written', 'ast.parse/compile do not execute code',
+              'f_string.Str/Bytes receive the four-quote list and pep701=True (checked at the construction site)'],
+     explanation='Sink inventory over every call in the package (a new eval/exec/open/getattr-by-computed-name site is a refuted obligation). '
+                 'For each string sink the text handed to eval is proved to be complete string/bytes literal tokens only: the per-character '
+                 'loops of MiniString.to_short/to_long and f_string.Str/Bytes._literals are analysed for one arbitrary iteration with a symbolic '
+                 'character of any code point against the lexer DFA (loop invariant: the lexer is inside the literal). The arithmetic sink '
+                 'receives only the printed form of literal trees, which prints number/operator/True/False/None tokens only.')
+
+
 def run_property(pid, tier):
     p = PROPS[pid]
     t0 = time.time()
